@@ -107,7 +107,7 @@ fn name_strategy() -> BoxedStrategy<String> {
     prop_oneof![3 => "chr[0-9]{1,2}", 2 => "[A-Za-z0-9_.]{1,10}", 1 => "chrUn_[A-Z]{2}[0-9]{3}v1"].boxed()
 }
 
-fn canonical_bw(max_chroms: usize, max_items: usize) -> BoxedStrategy<BwInput> {
+pub fn canonical_bw(max_chroms: usize, max_items: usize) -> BoxedStrategy<BwInput> {
     (
         proptest::collection::btree_set(name_strategy(), 1..=max_chroms),
         proptest::collection::vec(gen::bw_vals(max_items), max_chroms),
@@ -128,7 +128,7 @@ fn canonical_bw(max_chroms: usize, max_items: usize) -> BoxedStrategy<BwInput> {
         .boxed()
 }
 
-fn canonical_bb(max_chroms: usize, max_items: usize) -> BoxedStrategy<BbInput> {
+pub fn canonical_bb(max_chroms: usize, max_items: usize) -> BoxedStrategy<BbInput> {
     (
         proptest::collection::btree_set(name_strategy(), 1..=max_chroms),
         proptest::collection::vec(gen::bb_entries(max_items, true), max_chroms),
